@@ -995,6 +995,132 @@ def container_fields() -> list:
     return sorted(found)
 
 
+# --------------------------------------------------------------------------- omit-when-default sites
+def _pairs(get, dflt: set, fmts: list) -> list:
+    """A pair field with a default: both ends default, exactly one (either), both other and equal, both other and different."""
+    def some(test):
+        return lambda p: any(test(a, b) for a, b in get(p))
+    return [('both default', fmts, some(lambda a, b: a in dflt and b in dflt)),
+            ('low default only', fmts, some(lambda a, b: a in dflt and b not in dflt)),
+            ('high default only', fmts, some(lambda a, b: a not in dflt and b in dflt)),
+            ('both other, equal', fmts, some(lambda a, b: a not in dflt and a == b)),
+            ('both other, different', fmts, some(lambda a, b: a not in dflt and b not in dflt and a != b))]
+
+
+def _ev(test, fmts=('vcd', 'bvcd')):
+    return (list(fmts), lambda p: any(test(e) for e in _events(p)))
+
+
+def _both(label: str, test, fmts=('vcd', 'bvcd')) -> list:
+    return [(label + ' set', *_ev(test, fmts)), (label + ' unset', *_ev(lambda e: not test(e), fmts))]
+
+
+SCENES = ['vcd', 'bvcd']
+_curves = lambda p: [(s_[2], s_[3]) for e in _events(p) for s_ in e['ramp']['ramp']] + [(s_[2], s_[3]) for s_ in p['ramp']['ramp']]
+_flexs = lambda p: [f for e in _events(p) for f in e['flex']]
+# (writer, field read in a condition) -> the cases that must exist around its default | reason for exemption
+OMIT_SITES = {
+    ('Sound.export', 'volume'): _pairs(lambda p: [p['volume']], {'1.0'}, ['snd'])
+        + [('the constant', ['snd'], lambda p: p['volume'] == ['VOL_NORM', 'VOL_NORM']), ('constant and default', ['snd'], lambda p: sorted(p['volume']) == ['1.0', 'VOL_NORM'])],
+    ('Sound.export', 'pitch'): _pairs(lambda p: [p['pitch']], {'100.0', 'PITCH_NORM'}, ['snd'])
+        + [('default as number', ['snd'], lambda p: p['pitch'] == ['100.0', '100.0']), ('default as constant', ['snd'], lambda p: p['pitch'] == ['PITCH_NORM', 'PITCH_NORM']),
+           ('default in both spellings', ['snd'], lambda p: sorted(p['pitch']) == ['100.0', 'PITCH_NORM']),
+           ('one end default (constant), other a constant', ['snd'], lambda p: 'PITCH_NORM' in p['pitch'] and {'PITCH_LOW', 'PITCH_HIGH'} & set(p['pitch']))],
+    ('Sound.export', 'sounds'): [(f'{n} sounds', ['snd'], (lambda n: lambda p: min(len(p['sounds']), 2) == n)(n)) for n in (0, 1, 2)],
+    ('Sound.export', 'force_v2'): [('forced, no stacks', ['snd'], lambda p: p['force'] and not any(p['stacks'])), ('not forced', ['snd'], lambda p: not p['force'])],
+    **{('Sound.export', f'stack_{nm}'): [('only this stack', ['snd'], (lambda i: lambda p: p['stacks'][i] and not any(p['stacks'][j] for j in range(3) if j != i))(i)),
+                                         ('all but this stack', ['snd'], (lambda i: lambda p: not p['stacks'][i] and all(p['stacks'][j] for j in range(3) if j != i))(i))]
+       for i, nm in enumerate(('start', 'update', 'stop'))},
+    ('Event.export_text', 'parameters'): [('param2 only', *_ev(lambda e: e['params'][1] and not e['params'][2], ['vcd'])), ('param3 only', *_ev(lambda e: e['params'][2] and not e['params'][1], ['vcd'])),
+                                          ('both', *_ev(lambda e: e['params'][1] and e['params'][2], ['vcd'])), ('neither', *_ev(lambda e: not e['params'][1] and not e['params'][2], ['vcd'])),
+                                          ('param empty', *_ev(lambda e: not e['params'][0], ['vcd']))],
+    ('Event.export_text', 'pitch'): [('pitch only', *_ev(lambda e: e['pitch'] and not e['yaw'], ['vcd'])), ('both', *_ev(lambda e: e['pitch'] and e['yaw'], ['vcd']))],
+    ('Event.export_text', 'yaw'): [('yaw only', *_ev(lambda e: e['yaw'] and not e['pitch'], ['vcd'])), ('negative', *_ev(lambda e: e['yaw'] < 0, ['vcd']))],
+    ('Event.export_text', 'dist_to_targ'): [('zero', *_ev(lambda e: float(e['dist']) == 0, ['vcd'])), ('just above zero', *_ev(lambda e: 0 < float(e['dist']) < 1, ['vcd'])),
+                                            ('large', *_ev(lambda e: float(e['dist']) > 1, ['vcd']))],
+    ('Event.export_text', 'flags'): [('active', *_ev(lambda e: e['flags'] & 8, ['vcd'])), ('inactive', *_ev(lambda e: not e['flags'] & 8, ['vcd'])),
+                                     ('only another flag', *_ev(lambda e: e['flags'] and not e['flags'] & 8, ['vcd']))],
+    ('Event.export_text', 'ramp'): _both('event ramp', lambda e: bool(e['ramp']['ramp']), ['vcd']),
+    ('Event.export_text', 'flex_anim_tracks'): _both('flex tracks', lambda e: bool(e['flex']), ['vcd']),
+    ('Event.export_text', 'default_curve_type'): _pairs(lambda p: [tuple(e['dcurve']) for e in _events(p)], {'DEFAULT'}, ['vcd'])[:2]
+        + [('both other', ['vcd'], lambda p: any('DEFAULT' not in e['dcurve'] for e in _events(p)))],
+    ('Event.export_text', 'gesture_sequence_duration'): [('zero', *_ev(lambda e: e['type'] == 'Gesture' and float(e['dur']) == 0, ['vcd'])),
+                                                         ('set', *_ev(lambda e: e['type'] == 'Gesture' and float(e['dur']) != 0, ['vcd']))],
+    ('Event.export_text', 'tag_name'): [('none', *_ev(lambda e: not e['tag'], ['vcd'])), ('both', *_ev(lambda e: e['tag'] and all(e['tag']), ['vcd'])),
+                                        ('name only', *_ev(lambda e: e['tag'] and e['tag'][0] and not e['tag'][1], ['vcd']))],
+    ('Event.export_text', 'tag_wav_name'): [('set', *_ev(lambda e: e['tag'] and e['tag'][1], ['vcd']))],
+    ('Event.export_binary', 'tag_name'): [('none', *_ev(lambda e: not e['tag'], ['bvcd'])), ('both', *_ev(lambda e: e['tag'] and all(e['tag']), ['bvcd'])),
+                                          ('name only', *_ev(lambda e: e['tag'] and e['tag'][0] and not e['tag'][1], ['bvcd']))],
+    ('Event.export_binary', 'tag_wav_name'): [('set', *_ev(lambda e: e['tag'] and e['tag'][1], ['bvcd']))],
+    ('Event.export_text', 'caption_type'): [(ct, *_ev((lambda ct: lambda e: e['cc_type'] == ct)(ct))) for ct in ('Master', 'Slave', 'Disabled')],
+    ('Event.export_text', 'use_combined_file'): [('combined, captions on', *_ev(lambda e: e['combined'] and e['cc_type'] != 'Disabled')),
+                                                 ('combined alone', *_ev(lambda e: e['combined'] and not e['gender'] and not e['noatten'])),
+                                                 ('not combined', *_ev(lambda e: e['type'] == 'Speak' and not e['combined']))],
+    ('Event.export_text', 'use_gender_token'): [('alone', *_ev(lambda e: e['gender'] and not e['combined'] and not e['noatten'])), ('unset', *_ev(lambda e: e['type'] == 'Speak' and not e['gender']))],
+    ('Event.export_text', 'suppress_caption_attenuation'): [('alone', *_ev(lambda e: e['noatten'] and not e['combined'] and not e['gender'])),
+                                                            ('unset', *_ev(lambda e: e['type'] == 'Speak' and not e['noatten']))],
+    ('Curve.export_text', 'curve_type'): _pairs(_curves, {'DEFAULT'}, ['vcd'])[:3] + [('both other', ['vcd'], lambda p: any('DEFAULT' not in c for c in _curves(p)))],
+    ('Curve.export_text', 'ramp'): [('no samples, an edge', ['vcd'], lambda p: any(not e['ramp']['ramp'] and (e['ramp']['left'][0] or e['ramp']['right'][0]) for e in _events(p))),
+                                    ('samples', ['vcd'], lambda p: bool(_curves(p))), ('scene ramp', ['vcd'], lambda p: bool(p['ramp']['ramp']))],
+    ('Curve.export_text', 'left'): [('left edge only', ['vcd'], lambda p: any(e['ramp']['left'][0] and not e['ramp']['right'][0] for e in _events(p)) or (p['ramp']['left'][0] and not p['ramp']['right'][0]))],
+    ('Curve.export_text', 'right'): [('right edge only', ['vcd'], lambda p: any(e['ramp']['right'][0] and not e['ramp']['left'][0] for e in _events(p))),
+                                     ('both edges', ['vcd'], lambda p: any(e['ramp']['right'][0] and e['ramp']['left'][0] for e in _events(p)))],
+    ('FlexAnimTrack.export_text', 'curve_type'): _pairs(lambda p: [(s_[2], s_[3]) for f in _flexs(p) for s_ in f['mag']], {'DEFAULT'}, SCENES)[:3],
+    ('FlexAnimTrack.export_text', 'active'): [('active', SCENES, lambda p: any(f['active'] for f in _flexs(p))), ('disabled', SCENES, lambda p: any(not f['active'] for f in _flexs(p)))],
+    ('FlexAnimTrack.export_text', 'dir_track'): [('none', SCENES, lambda p: any(not f['combo'] for f in _flexs(p))), ('empty', SCENES, lambda p: any(f['combo'] and not f['dir'] for f in _flexs(p))),
+                                                 ('samples', SCENES, lambda p: any(f['dir'] for f in _flexs(p)))],
+    ('FlexAnimTrack.export_binary', 'dir_track'): [('none', ['bvcd'], lambda p: any(not f['combo'] for f in _flexs(p))), ('empty', ['bvcd'], lambda p: any(f['combo'] and not f['dir'] for f in _flexs(p))),
+                                                   ('samples', ['bvcd'], lambda p: any(f['dir'] for f in _flexs(p)))],
+    ('FlexAnimTrack.export_text', 'min'): [('default range', SCENES, lambda p: any((f['min'], f['max']) == ('0.0', '1.0') for f in _flexs(p))),
+                                           ('only min changed', SCENES, lambda p: any(f['min'] != '0.0' and f['max'] == '1.0' for f in _flexs(p)))],
+    ('FlexAnimTrack.export_text', 'max'): [('only max changed', SCENES, lambda p: any(f['min'] == '0.0' and f['max'] != '1.0' for f in _flexs(p))),
+                                           ('both changed', SCENES, lambda p: any(f['min'] != '0.0' and f['max'] != '1.0' for f in _flexs(p)))],
+    ('FlexAnimTrack.export_text', 'left'): 'flex edges: the text reader cannot read flex animations (open finding), the binary format does not store them',
+    ('FlexAnimTrack.export_text', 'right'): 'flex edges: the text reader cannot read flex animations (open finding), the binary format does not store them',
+    ('Tag.export_text', 'locked'): [('locked', *_ev(lambda e: any(t[2] for t in e['timing']), ['vcd'])), ('unlocked', *_ev(lambda e: any(not t[2] for t in e['timing']), ['vcd']))],
+    ('Scene.export_text', 'ignore_phonemes'): [('on', ['vcd'], lambda p: p['ignore']), ('off', ['vcd'], lambda p: not p['ignore']), ('on, snap off', ['vcd'], lambda p: p['ignore'] and not p['snap'])],
+    ('Scene.export_binary', 'ignore_phonemes'): [('on', ['bvcd'], lambda p: p['ignore']), ('off', ['bvcd'], lambda p: not p['ignore'])],
+    ('Scene.export_text', 'use_frame_snap'): [('on, ignore off', ['vcd'], lambda p: p['snap'] and not p['ignore']), ('off', ['vcd'], lambda p: not p['snap'])],
+    ('Scene.export_text', 'map_name'): [('set', ['vcd'], lambda p: p['map']), ('unset', ['vcd'], lambda p: not p['map'])],
+    ('Scene.export_text', 'scale_settings'): [('set', ['vcd'], lambda p: p['scale']), ('unset', ['vcd'], lambda p: not p['scale'])],
+    ('Actor.export_text', 'active'): [('inactive', ['vcd'], lambda p: any(not a['active'] for a in p['actors'])), ('inactive, channel active', ['vcd'], lambda p: any(not a['active'] and any(c['active'] for c in a['channels']) for a in p['actors']))],
+    ('Actor.export_binary', 'active'): [('inactive', ['bvcd'], lambda p: any(not a['active'] for a in p['actors'])), ('active', ['bvcd'], lambda p: any(a['active'] for a in p['actors']))],
+    ('Actor.export_text', 'faceposer_model'): [('set', ['vcd'], lambda p: any(a['model'] for a in p['actors'])), ('unset', ['vcd'], lambda p: any(not a['model'] for a in p['actors']))],
+    ('Channel.export_text', 'active'): [('inactive, actor active', ['vcd'], lambda p: any(a['active'] and any(not c['active'] for c in a['channels']) for a in p['actors']))],
+    ('Channel.export_binary', 'active'): [('inactive', ['bvcd'], lambda p: any(not c['active'] for a in p['actors'] for c in a['channels'])),
+                                          ('active', ['bvcd'], lambda p: any(c['active'] for a in p['actors'] for c in a['channels']))],
+    ('Material.export', 'proxies'): [('none', ['vmt'], lambda p: not p['proxies']), ('some', ['vmt'], lambda p: p['proxies']), ('blocks but no proxies', ['vmt'], lambda p: p['blocks'] and not p['proxies'])],
+    ('Mesh.export', 'triangles'): [('none', ['smd'], lambda p: not p['tris']), ('some', ['smd'], lambda p: p['tris'])],
+    ('Mesh.export', 'links'): [('one link', ['smd'], lambda p: any(len(v[8]) == 1 for t in p['tris'] for v in t[1])), ('two links', ['smd'], lambda p: any(len(v[8]) == 2 for t in p['tris'] for v in t[1])),
+                               ('three links', ['smd'], lambda p: any(len(v[8]) == 3 for t in p['tris'] for v in t[1]))],
+    ('Mesh.export', 'parent'): [('root only', ['smd'], lambda p: len(p['bones']) == 1), ('child of a child', ['smd'], lambda p: any(b[1] and dict(map(tuple, p['bones']))[b[1]] for b in p['bones']))],
+    ('write', 'ensure_file'): [('none', ['cmdseq'], lambda p: any(not c['ensure_set'] for s_ in p['seqs'] for c in s_['cmds'])),
+                               ('empty', ['cmdseq'], lambda p: any(c['ensure_set'] and not c['ensure'] for s_ in p['seqs'] for c in s_['cmds'])),
+                               ('set', ['cmdseq'], lambda p: any(c['ensure'] for s_ in p['seqs'] for c in s_['cmds']))],
+    ('write', 'exe'): [('special', ['cmdseq'], lambda p: any(c['special'] for s_ in p['seqs'] for c in s_['cmds'])),
+                       ('empty name', ['cmdseq'], lambda p: any(not c['special'] and not c['exe'] for s_ in p['seqs'] for c in s_['cmds']))],
+}
+
+
+def omit_sites() -> list:
+    """Reflectively: every (writer, field) where a writer's condition reads a field of the value."""
+    import inspect
+    writers = [sndscript.Sound.export, choreo.Scene.export_text, choreo.Actor.export_text, choreo.Channel.export_text,
+               choreo.Event.export_text, choreo.Curve.export_text, choreo.FlexAnimTrack.export_text, choreo.Tag.export_text,
+               choreo.Scene.export_binary, choreo.Event.export_binary, choreo.FlexAnimTrack.export_binary, choreo.Curve.export_binary,
+               choreo.Tag.export_binary, choreo.Actor.export_binary, choreo.Channel.export_binary, vmt.Material.export,
+               particles.Particle.export, smd.Mesh.export, cmdseq.write]
+    recv = r'(self|sample|cmd|tag|vert|bone|track|part|operator|entry|block|param|tri|frame|event|actor|channel)'
+    found = set()
+    for fn in writers:
+        for line in inspect.getsource(fn).splitlines():
+            code = line.split('#')[0]
+            if _re.search(r'\b(if|elif|while)\b', code):
+                for m in _re.finditer(recv + r'\.(\w+)', code):
+                    found.add((fn.__qualname__, m.group(2)))
+    return sorted(found)
+
+
 def run_cover(case_files: list, out_path: str) -> None:
     by_fmt: dict = {}
     for path in case_files:
@@ -1019,9 +1145,27 @@ def run_cover(case_files: list, out_path: str) -> None:
         report['fields'].append([key[0], key[1], n])
         if n == 0:
             report['uncovered'].append(list(key))
+    # omit-when-default sites: every field a writer's condition reads has the cases around its default
+    sites = omit_sites()
+    report['sites'] = []
+    for key in sites:
+        if key not in OMIT_SITES:
+            report['unknown'].append(['writer condition without cases'] + list(key))
+    for key, rule in sorted(OMIT_SITES.items()):
+        if key not in sites:
+            report['unknown'].append(['no such writer condition any more'] + list(key))
+            continue
+        if isinstance(rule, str):
+            report['exempt'].append([key[0], key[1], rule])
+            continue
+        for label, fmts, pred in rule:
+            n = sum(1 for f in fmts for v in by_fmt.get(f, []) if pred(v))
+            report['sites'].append([key[0], key[1], label, n])
+            if n == 0:
+                report['uncovered'].append([key[0], key[1], label])
     with open(out_path, 'w') as f:
         json.dump(report, f)
-    print(json.dumps({'fields': len(report['fields']), 'unknown': report['unknown'], 'uncovered': report['uncovered']}))
+    print(json.dumps({'fields': len(report['fields']), 'sites': len(report['sites']), 'unknown': report['unknown'], 'uncovered': report['uncovered']}))
 
 
 def main() -> None:
